@@ -418,3 +418,119 @@ def c20(rec):
                     out.append(dict(signature=f"C20:{k}-left:{len(b[k])}|cause={c}",
                                     msg=f"after clean lifecycles the parent still has {k}={b[k]}"))
     return out, _cls(rec) + (len(acc),)
+
+
+# ---- C19 (simulation part): depth shipped to / seen by every worker -------------------------
+def c19(rec):
+    v, _ = O.termination(rec)
+    out = []
+    c = O.cause(rec)
+    want = rec.prog.get("pool", {}).get("parent_depth", 0) + 1
+    ran = {ev[1] for ev in rec.log if ev[0] == "body"}
+    for p in rec.procs:
+        if p["depth_arg"] is not None and p["depth_arg"] != want:
+            out.append(dict(signature=f"C19:depth-shipped:{p['depth_arg']}vs{want}|cause={c}",
+                            msg=f"{p['label']} was started with current_depth={p['depth_arg']}, "
+                                f"its creator is at depth {want - 1}"))
+        if p["label"] in ran and p["depth_seen"] != want:
+            out.append(dict(signature=f"C19:depth-seen:{p['depth_seen']}vs{want}|cause={c}",
+                            msg=f"{p['label']} ran a task while its nesting depth was "
+                                f"{p['depth_seen']} instead of {want}"))
+    return out, _cls(rec) + (len(rec.procs),)
+
+
+# ---- C09: get_reusable_executor against the documented decision ---------------------------
+def c09(rec):
+    v, _ = O.termination(rec)
+    out = [dict(x, signature="C09:" + x["signature"]) for x in v]
+    c = O.cause(rec)
+    pool = rec.prog.get("pool", {})
+    single = len(rec.prog["threads"]) == 1
+    kill = O.had_kill(rec)
+    m = None          # model of the singleton: dict(id, kwargs, mw, broken, shutdown, started)
+    next_id = 0
+    ops = [o for o in rec.ops if o["t"] == 0] if single else []
+    for o in ops:
+        name = o["op"][0]
+        if name == "new":
+            m = dict(id=next_id, kwargs=(pool.get("timeout"), pool.get("init")),
+                     mw=pool.get("max_workers", 2), broken=False, shutdown=False, started=False)
+            next_id += 1
+        elif name == "submit" and m is not None and o["exc"] is None:
+            m["started"] = True
+            m["idle"] = False
+        elif name == "sleep" and m is not None and pool.get("timeout") and o["op"][1] > pool["timeout"]:
+            m["idle"] = True           # every worker may have left on its idle timeout
+        elif name == "kill" and m is not None and m["started"] and not m["shutdown"]:
+            m["broken"] = True
+        elif name == "shutdown" and m is not None:
+            m["shutdown"] = True
+        elif name == "reuse":
+            kw = o["op"][1]
+            newkw = (kw.get("timeout", pool.get("timeout")), kw.get("init", pool.get("init")))
+            reuse = kw.get("reuse", "auto")
+            want_mw = kw.get("max_workers")
+            if want_mw is None:
+                want_mw = m["mw"] if (reuse is True and m is not None) else pool.get("cpu_count", 2)
+            if m is None:
+                fresh = True
+            else:
+                if reuse == "auto":
+                    reuse = newkw == m["kwargs"]
+                fresh = bool(m["broken"] or m["shutdown"] or not reuse)
+            if not o["returned"] or o["exc"] is not None or "same" not in o:
+                if not v:
+                    out.append(dict(signature=f"C09:get-raised:{(o['exc'] or ['?'])[0]}|cause={c}",
+                                    msg=f"get_reusable_executor({kw}) raised {o['exc']}"))
+                break
+            if fresh:
+                was_started = bool(m and m["started"])
+                m = dict(id=next_id, kwargs=newkw, mw=want_mw, broken=False, shutdown=False,
+                         started=False)
+                next_id += 1
+                if o["same"]:
+                    out.append(dict(signature=f"C09:reused-unusable|cause={c}",
+                                    msg=f"get_reusable_executor({kw}) returned the previous "
+                                        f"instance although it was broken/shut down or reuse "
+                                        f"was not allowed"))
+                if o["alive_workers"] or o["alive_managers"] or o["unreaped"]:
+                    out.append(dict(signature=f"C09:previous-not-shut-down|cause={c}",
+                                    msg=f"a fresh executor was returned while the previous one "
+                                        f"still had workers {o['alive_workers']} / unreaped "
+                                        f"{o['unreaped']} / {o['alive_managers']} manager thread(s)"))
+            else:
+                m["mw"] = want_mw
+                if not o["same"]:
+                    out.append(dict(signature=f"C09:not-reused|cause={c}",
+                                    msg=f"get_reusable_executor({kw}) built a new executor "
+                                        f"although the previous one was healthy and reusable"))
+                elif m["started"] and not kill and (
+                        o["n_workers"] > want_mw
+                        or (o["n_workers"] != want_mw and not m.get("idle"))):
+                    out.append(dict(signature=f"C09:wrong-worker-count:{o['n_workers']}vs{want_mw}"
+                                              f"|cause={c}",
+                                    msg=f"reused executor has {o['n_workers']} workers, "
+                                        f"{want_mw} requested"))
+            if o["id"] != m["id"]:
+                out.append(dict(signature=f"C09:executor-id:{o['id']}vs{m['id']}|cause={c}",
+                                msg=f"executor_id is {o['id']}, expected {m['id']}"))
+            if (o["broken"] or o["shutdown"]) and not kill:
+                out.append(dict(signature=f"C09:returned-unusable|cause={c}",
+                                msg=f"returned executor broken={o['broken']} shutdown={o['shutdown']}"))
+            if o["max_workers"] != want_mw:
+                out.append(dict(signature=f"C09:max-workers:{o['max_workers']}vs{want_mw}|cause={c}",
+                                msg=f"returned executor has _max_workers={o['max_workers']}, "
+                                    f"{want_mw} requested"))
+    if not single and not v:
+        # racing callers: every one got an executor and its task completed
+        for o in rec.ops:
+            if o["op"][0] == "reuse" and (o["exc"] is not None or not o["returned"]):
+                out.append(dict(signature=f"C09:racing-get-failed|cause={c}",
+                                msg=f"get_reusable_executor raised {o['exc']} in thread {o['t']}"))
+        for key, f in rec.fut.items():
+            exp = expected(rec.values[key][0], key, rec.values[key][1:])
+            if not matches(f, exp) and not (kill and is_bpp(f)):
+                out.append(dict(signature=f"C09:racing-task:{f[0]}:{f[1] if f[0]=='exc' else ''}"
+                                          f"|cause={c}",
+                                msg=f"task {key} of a racing caller ended as {f[:3]}"))
+    return out, _cls(rec) + (next_id,)
